@@ -13,6 +13,7 @@ INVARIANT ScoreSegmentationIndependent
 INVARIANT ScoreSegmentationIndependentEvenWithDeletes
 INVARIANT DeletedStillCounted
 INVARIANT TermIffMatches
+INVARIANT MergeEstimateBounds
 INVARIANT ScoresUseSearcherStats
 INVARIANT NormIdIsLargestNotAbove
 CHECK_DEADLOCK FALSE
